@@ -26,6 +26,9 @@ THEOREMS = [
     "RedunModel.C28.resolved_root_had_no_miss",
     "RedunModel.SchedCore.reachable_dryTok",
     "RedunModel.SchedCore.no_miss_of_root_resolved",
+    "RedunModel.C28.incomplete_predicts",
+    "RedunModel.C28.incomplete_every_run",
+    "RedunModel.SchedCore.miss_submits",
 ]
 TRUSTED = base.TRUSTED + [
     "the backend state before the run is abstracted to one flag per call (miss / single-reduction entry / ultimate-reduction entry); the harness "
@@ -45,9 +48,13 @@ LEVEL_TEXT = ("Lean 4 proof for all programs and schedules that a dry run never 
               "exit - proved from the dry-run invariant reachable_dryTok (nothing is registered or collapsed in a dry run, every job has at most "
               "one queued event, a settled job has none, Promise.all counts exactly the pending children, a job resolves only after all its "
               "children resolved) and the fact that a job that misses never resolves (no_miss_of_root_resolved) - hence the real run from the "
-              "same backend state goes through the same n states, resolves its root and submits nothing. Still PARTIAL for the converse "
-              "direction (an incomplete dry run implies that the real run submits at least one job): checked by the dry-then-real oracle on "
-              "real sqlite backends, not proved.")
+              "same backend state goes through the same n states, resolves its root and submits nothing. The CONVERSE is proved too "
+              "(incomplete_predicts / incomplete_every_run): if the dry run serves its first n events from twins and the cache and the next "
+              "event is the execution of a job that misses both and has an executor (the 'would run' exit), then with feasible limits the "
+              "real run on the same backend state passes through the same n states and hands that job to its executor at that very event, "
+              "and every reachable state of every real run is one of these common states or has at least one submission. Remainder "
+              "(oracle only): dry runs in which a job WITHOUT executor misses (and is rejected, identically in both runs) before the first "
+              "runnable miss, and infeasible limit configurations.")
 LEVEL_NOTE = "task functions are never called in a dry run is observed through the interposed executor (no submission => no call)"
 TECHNIQUE = base.TECHNIQUE
 
